@@ -7,6 +7,7 @@ package c04
 
 import (
 	"bytes"
+	"errors"
 	"fmt"
 	"net"
 	"os"
@@ -130,10 +131,11 @@ type ucCase struct {
 	Wave2  int
 	Pokes  []string // stale requests on closed first-wave sockets
 	Rounds int
+	Hammer int // goroutines calling AsyncWrite on each first-wave socket while it is being closed
 }
 
 func (c ucCase) String() string {
-	return fmt.Sprintf("client loops=%d ET=%v wave1=%v wave2=%d stale=%v rounds=%d", c.Loops, c.ET, c.Wave1, c.Wave2, c.Pokes, c.Rounds)
+	return fmt.Sprintf("client loops=%d ET=%v wave1=%v wave2=%d stale=%v rounds=%d writersDuringClose=%d", c.Loops, c.ET, c.Wave1, c.Wave2, c.Pokes, c.Rounds, c.Hammer)
 }
 
 const ucBound = 8 * time.Second
@@ -288,6 +290,28 @@ func runClientUDP(cs ucCase) (fails []string, infra string, reused int) {
 		}
 	}
 	for _, st := range w1 {
+		// optionally other goroutines are inside AsyncWrite while the socket is being closed (AsyncWrite
+		// on a connected UDP socket sends on the caller's goroutine): the close still has to take
+		// effect for every later request
+		hammerStop := make(chan struct{})
+		var hwg sync.WaitGroup
+		for h := 0; h < cs.Hammer; h++ {
+			hwg.Add(1)
+			go func(gc gnet.Conn) {
+				defer hwg.Done()
+				for {
+					select {
+					case <-hammerStop:
+						return
+					default:
+					}
+					_ = gc.AsyncWrite([]byte("HAMMER"), nil)
+				}
+			}(st.gc)
+		}
+		if cs.Hammer > 0 {
+			time.Sleep(200 * time.Microsecond)
+		}
 		switch st.closeHow {
 		case "close":
 			_ = st.gc.Close()
@@ -300,9 +324,14 @@ func runClientUDP(cs ucCase) (fails []string, infra string, reused int) {
 		select {
 		case <-st.closedCh:
 		case <-time.After(ucBound):
+			close(hammerStop)
+			hwg.Wait()
 			add("VERIF-KEY:life-noclose conn%d: closed by %s, no OnClose within %v", st.id, st.closeHow, ucBound)
 			return fails, infra, 0
 		}
+		time.Sleep(300 * time.Microsecond)
+		close(hammerStop)
+		hwg.Wait()
 	}
 	time.Sleep(time.Millisecond) // the descriptors are released right after OnClose
 	// ---- wave 2: fresh sockets, which get the released descriptor numbers ----
@@ -347,6 +376,8 @@ func runClientUDP(cs ucCase) (fails []string, infra string, reused int) {
 			staleErrs = append(staleErrs, fmt.Sprintf("conn%d: %v", st.id, err))
 			if err == nil {
 				add("VERIF-KEY:life-stale-write conn%d: AsyncWrite on a closed socket reported success", st.id)
+			} else if !errors.Is(err, net.ErrClosed) {
+				add("VERIF-KEY:life-stale-write conn%d: AsyncWrite on a closed socket completed with %v instead of the closed-connection error: the request reached the descriptor number", st.id, err)
 			}
 		}
 	}
@@ -419,6 +450,7 @@ func TestC04ClientUDP(t *testing.T) {
 			cs.Pokes = append(cs.Pokes, rapid.SampledFrom([]string{"wake", "close", "closecb", "asyncwrite"}).Draw(t, "poke"))
 		}
 		cs.Rounds = rapid.IntRange(0, 2).Draw(t, "rounds")
+		cs.Hammer = rapid.SampledFrom([]int{0, 0, 2, 8}).Draw(t, "writersDuringClose")
 		fails, infra, reused := runClientUDP(cs)
 		if infra != "" {
 			t.Fatalf("VERIF-INFRA %s\n%s", infra, cs)
